@@ -12,7 +12,8 @@ MANIFEST = {
     "technique": "Rocq proof over the Factory/Resolve model + vm_compute correspondence on generated wiring scenarios",
 }
 
-PROFILES = [(Profile(p_wrap=0.9, n_procs=(1, 2), p_cycle_bias=0.85, fields=(1, 4), kind_weights={"iface": 6, "siface": 4, "ptr": 1, "name": 2, "any": 0.5, "func": 0.5, "sptr": 0.5, "other": 0}), 600, 6000)]
+PROFILES = [(Profile(p_wrap=0.9, n_procs=(1, 2), p_cycle_bias=0.85, fields=(1, 4), kind_weights={"iface": 6, "siface": 4, "ptr": 1, "name": 2, "any": 0.5, "func": 0.5, "sptr": 0.5, "other": 0}), 450, 4500),
+            (Profile(p_wrap=0.9, n_procs=(1, 2), p_cycle_bias=0.85, fields=(1, 4), p_lazy=0.4, p_init=0.9, p_initget=0.5, p_short=0.2), 150, 1500)]
 
 RULE = 'cycle-biased graphs with interface-typed edges and wrapping post-processors over all wrap timings; non-trivial = a proxy version is visible in a field or lookup and held by someone'
 
